@@ -242,7 +242,8 @@ def toIntegerAt (t : IntTy) (s : List Nat) (base : Int) (pos0 : Nat) : Except Er
       toIntegerDigits t s b neg p
     else toIntegerDigits t s base neg pos1
 
-/-- `to_integer<Int, {skip_whitespace = ws, check_overflow = true}>(str, base)`; `base` is 0
+/-- `to_integer<Int, {skip_whitespace = ws, check_overflow = true}>(str, base)` (the configuration of every
+    wrapper; `check_overflow = false` is `toIntegerNC` below); `base` is 0
     (auto-detect, as `strtol`) or in `[2, 36]` — the precondition of [charconv.from.chars] / C17 7.22.1.4,
     not a `TETL_PRECONDITION` (the code has no check). -/
 def toInteger (t : IntTy) (ws : Bool) (s : List Nat) (base : Int) : Except Err TIRes :=
@@ -250,6 +251,55 @@ def toInteger (t : IntTy) (ws : Bool) (s : List Nat) (base : Int) : Except Err T
   else do
     let pos0 ← if ws then skipWs s s.length 0 else .ok 0
     toIntegerAt t s base pos0
+
+/-! ### `check_overflow = false` (`nop_overflow_checker`) -/
+
+/-- the digit loop with `nop_overflow_checker` (`wouldOverflow` is constantly `false`): no `overflow` exit;
+    an accumulation step that leaves the type wraps (unsigned / promoted types) or is undefined behaviour
+    (`int`, `long`: `.error`) -/
+def tiLoopNC (t : IntTy) (base : Int) (s : List Nat) : Nat → Nat → Int → Except Err (Int × Nat)
+  | 0, pos, value => .ok (value, pos)
+  | n + 1, pos, value => do
+    let c ← rd s pos
+    let digit := parseDigit t (toInt c)
+    if digit ≥ base then .ok (value, pos)
+    else do
+      let value ← t.arith (if t.signed then value * base - digit else value * base + digit)
+      tiLoopNC t base s n (pos + 1) value
+
+def toIntegerDigitsNC (t : IntTy) (s : List Nat) (base : Int) (neg : Bool) (pos1 : Nat) : Except Err TIRes := do
+  let c1 ← rd s pos1
+  let digit := parseDigit t (toInt c1)
+  let value ← firstValue t digit
+  let pos2 := pos1 + 1
+  if (if value < 0 then -value else value) ≥ base then .ok (.mkErr .invalid)
+  else do
+    let (value, pos) ← tiLoopNC t base s (s.length - pos2) pos2 value
+    if t.signed && !neg then
+      if value == t.minV then .ok (.mkErr .overflow)
+      else do
+        let v ← t.arith (value * (-1))
+        .ok ⟨pos, .none, v⟩
+    else .ok ⟨pos, .none, value⟩
+
+def toIntegerAtNC (t : IntTy) (s : List Nat) (base : Int) (pos0 : Nat) : Except Err TIRes :=
+  if pos0 == s.length then .ok (.mkErr .invalid)
+  else do
+    let c0 ← rd s pos0
+    let neg := t.signed && (toInt c0 == 45)
+    let pos1 := if neg then pos0 + 1 else pos0
+    if neg && pos1 == s.length then .ok (.mkErr .invalid)
+    else if base == 0 then do
+      let (b, p) ← detectBase t s pos1
+      toIntegerDigitsNC t s b neg p
+    else toIntegerDigitsNC t s base neg pos1
+
+/-- `to_integer<Int, {skip_whitespace = ws, check_overflow = false}>(str, base)` -/
+def toIntegerNC (t : IntTy) (ws : Bool) (s : List Nat) (base : Int) : Except Err TIRes :=
+  if base != 0 && (base < 2 || base > 36) then .error (.pre "base = 0 or 2 <= base <= 36")
+  else do
+    let pos0 ← if ws then skipWs s s.length 0 else .ok 0
+    toIntegerAtNC t s base pos0
 
 inductive FCRes where
   | ok (v : Int) (ptr : Nat)
